@@ -154,6 +154,7 @@ type interp struct {
 	// where the parser "is" when a panic happens (for the recovered-panic error)
 	curPos  int
 	curRule *gast.Rule
+	panicking bool
 	inHandler int
 	recDepth  int
 	recLeft   map[int]bool
@@ -410,6 +411,7 @@ func (it *interp) evalRule(r *gast.Rule, pos int, st *state, h *handler, inv boo
 	if it.o.DetectReentry {
 		key := r.Name + "@" + strconv.Itoa(pos)
 		if it.active[key] {
+			it.panicking = true
 			panic(reentryPanic{key})
 		}
 		it.active[key] = true
@@ -471,9 +473,11 @@ func (it *interp) eval(e *gast.Expr, pos int, st *state, fr frame, h *handler, r
 	it.cnt++
 	it.curPos, it.curRule = pos, rule
 	if it.o.MaxExpr > 0 && it.cnt > it.o.MaxExpr {
+		it.panicking = true
 		panic(budgetPanic{})
 	}
 	if it.cnt > it.o.StepCap {
+		it.panicking = true
 		panic(capPanic{})
 	}
 	it.res.KindsEval[e.Kind]++
@@ -482,6 +486,9 @@ func (it *interp) eval(e *gast.Expr, pos int, st *state, fr frame, h *handler, r
 		it.res.MaxDepth = it.depth
 	}
 	defer func() {
+		if it.panicking {
+			return // unwinding: the parser stays where the panic happened
+		}
 		it.depth--
 		if !ok {
 			it.res.Backtracks++
@@ -521,6 +528,7 @@ func (it *interp) eval(e *gast.Expr, pos int, st *state, fr frame, h *handler, r
 		labels := it.event('A', e, pos, text, fr, nst)
 		sp := e.Code.Spec
 		if k := sp.PanicKind(e.Code.ID, pos); k != 0 {
+			it.panicking = true
 			panic(blockPanic{k, e.Code.ID})
 		}
 		it.blockErr(e, pos, pos, rule)
@@ -633,6 +641,7 @@ func (it *interp) eval(e *gast.Expr, pos int, st *state, fr frame, h *handler, r
 		key := mon.LabelCoin(it.event('P', e, pos, nil, fr, st))
 		sp := e.Code.Spec
 		if k := sp.PanicKind(e.Code.ID, key); k != 0 {
+			it.panicking = true
 			panic(blockPanic{k, e.Code.ID})
 		}
 		it.blockErr(e, key, pos, rule)
@@ -654,6 +663,7 @@ func (it *interp) eval(e *gast.Expr, pos int, st *state, fr frame, h *handler, r
 			mon.ApplyStateOps(nst.m, e.Code.ID, key, e.Code.Spec.S)
 		}
 		if k := e.Code.Spec.PanicKind(e.Code.ID, key); k != 0 {
+			it.panicking = true
 			panic(blockPanic{k, e.Code.ID})
 		}
 		it.blockErr(e, key, pos, rule)
